@@ -183,8 +183,16 @@ func vhNoDup(got []Bindings) bool {
 	return ok
 }
 
-func vhC05Pattern(shape int) map[string]interface{} {
-	b := &vhB{prefix: "p"}
+func vhC05Pattern(shape int) map[string]interface{} { return vhC05PatternN(shape, "p") }
+
+// vhC05PatternQ: a second, independently named pattern.
+func vhC05PatternQ(shape int) map[string]interface{} { return vhC05PatternN(shape, "q") }
+
+func vhC05PatternN(shape int, prefix string) map[string]interface{} {
+	return vhPatternB(shape, &vhB{prefix: prefix})
+}
+
+func vhPatternB(shape int, b *vhB) map[string]interface{} {
 	switch shape {
 	case 0:
 		return map[string]interface{}{b.key(): b.leaf("?x", "?")}
@@ -218,8 +226,9 @@ func vhC05Pattern(shape int) map[string]interface{} {
 
 func vhDataStr(b *vhB) interface{} { return b.scalar() }
 
-func vhC05Data(shape int) map[string]interface{} {
-	b := &vhB{prefix: "d"}
+func vhC05Data(shape int) map[string]interface{} { return vhDataB(shape, &vhB{prefix: "d"}) }
+
+func vhDataB(shape int, b *vhB) map[string]interface{} {
 	switch shape {
 	case 0:
 		return map[string]interface{}{b.anyKey(): b.scalar()}
